@@ -90,20 +90,11 @@ Theorem C19_print_total_on_supported_partial : forall f e, supported f e = true 
 Proof. exact print_total_on_supported. Qed.
 Print Assumptions C19_print_total_on_supported_partial.
 
-(* the full statement -- the printed text determines the expression -- is false (known finding C19-F1) *)
-Theorem C19_print_injective_refuted : exists e1 e2, e1 <> e2 /\ print_expr e1 <> None /\ print_expr e1 = print_expr e2.
-Proof. exact print_injective_refuted. Qed.
-Print Assumptions C19_print_injective_refuted.
-
-Theorem C19_print_total_refuted : exists op, print_expr (PBin op (PName (s2l "a")) (PName (s2l "b"))) = None.
-Proof. exact print_total_refuted. Qed.
-Print Assumptions C19_print_total_refuted.
-
-Theorem C19_print_doublestar_refuted :
-  print_expr (PCall (PName (s2l "f")) [] [(None, PName (s2l "d"))]) = None /\
-  print_expr (PDict [(None, PName (s2l "d"))]) = None.
-Proof. exact print_doublestar_refuted. Qed.
-Print Assumptions C19_print_doublestar_refuted.
+(* what remains: a lambda is written without parentheses (pinned by test_ast.test_expr_generate; known finding C19-F1);
+   the repaired cases are Examples in Proofs/PyExprProofs.v over the regenerated tables *)
+Example C19_lambda_operand_is_not_parenthesised :
+  print_expr (PBin (s2l "Add") (PLambda [] [] None [] None (PName (s2l "a"))) (PName (s2l "b"))) = Some (s2l "(lambda : a + b)").
+Proof. exact lambda_operand_is_not_parenthesised. Qed.
 
 (* ---- non-vacuity ---------------------------------------------------------------------------------- *)
 Example C19_margin_nonvacuous :
@@ -117,6 +108,6 @@ Example C19_scope_nonvacuous :
 Proof. vm_compute. repeat split. Qed.
 
 Example C19_print_nonvacuous :
-  print_expr (PCall (PAttr (PName (s2l "a")) (s2l "b")) [PBin (s2l "Add") (PConst (s2l "1")) (PName (s2l "x"))] [(Some (s2l "k"), PTuple [PName (s2l "y")])])
+  print_expr (PCall (PAttr (PName (s2l "a")) (s2l "b")) [PBin (s2l "Add") (PConst (s2l "1") true) (PName (s2l "x"))] [(Some (s2l "k"), PTuple [PName (s2l "y")])])
   = Some (s2l "a.b((1 + x), k=(y,))").
 Proof. vm_compute. reflexivity. Qed.
